@@ -713,10 +713,10 @@ class LeastSquare:
 
         numbtype = number_type(allknots)
         numbtype = Fraction if (numbtype is int) else numbtype
-        nptsinteg = olddegree + newdegree + 3  # Number integration points
+        nptsinteg = 2 * max(olddegree, newdegree) + 1  # Number integration points
         if numbtype is Fraction:
-            nodes0to1 = NodeSample.closed_linspace(nptsinteg)
-            integrator = IntegratorArray.closed_newton_cotes(nptsinteg)
+            nodes0to1 = NodeSample.open_linspace(nptsinteg)
+            integrator = IntegratorArray.open_newton_cotes(nptsinteg)
         else:
             nodes0to1 = NodeSample.chebyshev(nptsinteg)
             integrator = IntegratorArray.chebyshev(nptsinteg)
@@ -738,6 +738,7 @@ class LeastSquare:
             Fvalues = np.array(Fvalues, dtype=numbtype)
             Gvalues = np.array(Gvalues, dtype=numbtype)
             for k, integ in enumerate(integrator):
+                integ = (end - start) * integ
                 FF += integ * np.tensordot(Fvalues[:, k], Fvalues[:, k], axes=0)
                 GF += integ * np.tensordot(Gvalues[:, k], Fvalues[:, k], axes=0)
                 GG += integ * np.tensordot(Gvalues[:, k], Gvalues[:, k], axes=0)
